@@ -596,8 +596,18 @@ class CFG:
             ss = blk['succ']
             cond = blk.get('lc') or blk.get('tc')
             tk = blk.get('tk')
+            # `while (true)` / `for (;;)`-style literal conditions: the edge for the other truth value is infeasible
+            lit = None
+            if cond and len(ss) == 2:
+                cn_ = self.func.nodes.get(cond)
+                while cn_ is not None and cn_.get('k') in ('Paren', 'Cast') and len(cn_.get('c', [])) == 1:
+                    cn_ = cn_['c'][0]
+                if cn_ is not None and cn_.get('k') == 'Bool':
+                    lit = bool(cn_.get('v'))
             for idx, s in enumerate(ss):
                 if s is None:
+                    continue
+                if lit is not None and tk not in ('SwitchStmt', 'CXXTryStmt', 'CXXForRangeStmt') and (idx == 0) != lit:
                     continue
                 f = out
                 if cond and len(ss) == 2 and tk not in ('SwitchStmt', 'CXXTryStmt', 'CXXForRangeStmt'):
